@@ -176,6 +176,32 @@ VETTED_WRITERS = {"TextgridTier.__init__", "TextgridTier.sort", "IntervalTier.in
                   "PointTier.insertEntry", "PointTier.deleteEntry", "IntervalTier.__init__", "PointTier.__init__"}
 
 
+def _only_called_from(idx, eff, fn, allowed, depth=0) -> bool:
+    """Every call of fn in the package sits in one of the allowed functions (or in a private helper that is itself
+    only called from them)."""
+    from ..index import resolve_call
+
+    callers = set()
+    for g in idx.all_functions():
+        if g is fn:
+            continue
+        te = eff.tenv(g)
+        for c in ast.walk(g.node):
+            if isinstance(c, ast.Call) and isinstance(c.func, ast.Attribute) and c.func.attr == fn.name:
+                tg, _ = resolve_call(idx, g, te, c)
+                if tg is None or fn in tg:
+                    callers.add(g)
+    if not callers:
+        return False
+    for g in callers:
+        if g.short in allowed:
+            continue
+        if depth < 3 and g.name.startswith("_") and _only_called_from(idx, eff, g, allowed, depth + 1):
+            continue
+        return False
+    return True
+
+
 def run(rep, tier):
     idx, eff = common.ctx(), common.effects()
     rep.rule("I-constructor", "abstract interpretation of the IntervalTier / PointTier constructors on k arbitrary entries (every weak order of their boundaries and of the requested span, labels with surrounding whitespace): the outcome is a praatio error or a tier that is sorted, start<end, disjoint, inside its span, whitespace-free and validate()==True")
@@ -244,6 +270,8 @@ def run(rep, tier):
                 rep.proved("I-writers", fn.short, w.text, "vetted writer (constructor or in-place mutator covered by I-constructor / I-mutators)")
             elif "fresh" in roots and len(roots - {"fresh"}) == 0:
                 rep.proved("I-writers", fn.short, w.text, "writes only a freshly constructed object")
+            elif fn.name.startswith("_") and _only_called_from(idx, eff, fn, VETTED_WRITERS):
+                rep.proved("I-writers", fn.short, w.text, "private helper reached only from vetted writers: interpreted inline by their tables")
             else:
                 rep.undecided("I-writers", fn.short, w.text, "a new writer of tier state: its effect on well-formedness is not covered by any table", loc=fn.where(w.node))
     rep.floor("I-writers", 8, "TextgridTier.__init__ (3), sort, insertEntry x2, deleteEntry x2")
